@@ -240,6 +240,25 @@ func c08e(c *Ctx) {
 				c.Bad(fmt.Sprintf("%s/list-cut#%d", fk, k), c.W.Pos(sl.Pos()), "the list "+pretty(c.term(fn, sl.X))+" ("+types.TypeString(st, nil)+") is cut to "+pretty(c.term(fn, sl))+": the parser keeps the lists of tokens, statements and records it gathered whole")
 			})
 		}
+		// (vi) appending to a cut-out front part of a list writes over what follows it in the
+		// shared backing array, without any store instruction to see: nothing is ever appended to
+		// `x[:i]` of a list that was not made here
+		for _, ci := range callsIn(fn) {
+			if calleeName(ci) != "builtin:append" {
+				continue
+			}
+			sl, isSl := ci.Common().Args[0].(*ssa.Slice)
+			if !isSl || sl.High == nil || sl.Max != nil {
+				continue
+			}
+			if _, isArr := sl.X.(*ssa.Alloc); isArr || localSlice(sl.X, map[ssa.Value]bool{}) {
+				continue
+			}
+			if k, isC := sl.High.(*ssa.Const); isC && k.Int64() == 0 {
+				continue // x[:0] reuse of an own buffer is caught by localSlice above if it is own; of a foreign list it overwrites
+			}
+			c.Bad(fmt.Sprintf("%s/appended-onto-a-front-part@%d", fk, c.T(fn).callOrd[ci]), c.W.Pos(ci.Pos()), "append onto "+pretty(c.term(fn, sl))+": the elements that follow the cut in the shared list are overwritten in place")
+		}
 		// (iii) copy() into such a list
 		for _, ci := range callsIn(fn) {
 			if calleeName(ci) != "builtin:copy" {
